@@ -188,6 +188,7 @@ func driveJSON(c *Ctx) error {
 					v := Concretize(asJ(vj), rep*2)
 					for _, ty := range tys {
 						ev := J{"ev": asS(j["k"]), "v": Project(v), "ty": ProjectType(ty)}
+						ev["ia"] = digestOf(ev["v"], ev["ty"])
 						var b []byte
 						var err error
 						p, msg := guard(func() { b, err = ctyjson.Marshal(v, ty) })
@@ -210,6 +211,7 @@ func driveJSON(c *Ctx) error {
 							bp, bmsg := guard(func() { back, berr = ctyjson.Unmarshal(b, ty) })
 							ev["back"] = resOf(back, berr, bp, bmsg)
 						}
+						ev["ia2"] = digestOf(Project(v), ProjectType(ty))
 						c.Out.Emit(ev)
 					}
 					if asS(j["k"]) == "jx" {
